@@ -10,6 +10,9 @@ def nontrivial(specs):
     """a delete_id of an object created >= 1 message earlier with a non-zero time gap, or a server-range reuse"""
     W = model.MWorld()
     for m in specs:
+        if m.get('destroy'):
+            W.close(m['conn'])
+            continue
         rec = W.step(m)
         if rec['implicit']:
             return True
@@ -26,13 +29,15 @@ class _Base(Stage):
             res.label(l)
         sides = set()
         for m in specs:
+            if m.get('destroy'):
+                continue
             if m['name'] == 'delete_id' and m['iface'] == 'wl_display':
                 sides.add('delete_id-sent(server-log)' if m['sent'] else 'delete_id-received(client-log)')
         for s in sides:
             res.label(s)
         res.nontrivial = nontrivial(specs)
         from .. import wire
-        res.sample = dict(dialect=case.get('dialect', 'new'), lines=[wire.render(m, case.get('dialect', 'new')) for m in specs[:12]], n=len(specs))
+        res.sample = dict(dialect=case.get('dialect', 'new'), lines=[wire.render(m, case.get('dialect', 'new')) if not m.get('destroy') else '(connection %s destroyed)' % m['conn'] for m in specs[:12]], n=len(specs))
 
     def execute(self, case):
         tr, res = tracker.run_history(case['specs'], CHECKS, case.get('dialect', 'new'))
@@ -92,8 +97,17 @@ class GdbMode(_Base):
         return 100 if tier == 'quick' else 14 * 800
 
     def gen(self, d, tier):
-        specs = histgen.history(d, nconn=d.int(1, 2), nmsg=d.int(5, 36), tagged=True, profile=dict(reuse=0.8, server_reuse=0.6, weights=dict(
-            delete=26, bind=12, message=34, server_event=14, sync=8, retype=6)))
+        prof = dict(reuse=0.8, server_reuse=0.6, weights=dict(delete=26, bind=12, message=34, server_event=14, sync=8, retype=6))
+        if d.chance(0.65):
+            specs = histgen.history(d, nconn=d.int(1, 2), nmsg=d.int(5, 36), tagged=True, profile=prof)
+        else:
+            specs = histgen.history_with_destroys(d, prof)      # libwayland destroys a connection, a later one lives at its address
+        if len(specs) > 2 and d.chance(0.35):
+            # the debugged program sits idle for more than 2^32 microseconds (GDB mode takes the time from an unbounded clock)
+            k = d.int(1, len(specs) - 1)
+            off = d.choice([4_294_967_296, 4_300_000_000, 7_200_000_000, 90_000_000_000])
+            for m in specs[k:]:
+                m['t_us'] += off
         return dict(dialect='gdb-shaped', specs=specs, threads=[d.choice([1, 1, 2, 3]) for _ in range(d.int(1, 6))])
 
     def execute(self, case):
@@ -103,6 +117,9 @@ class GdbMode(_Base):
         tr = tracker.GdbTracker('', case.get('threads'))
         try:
             for spec in case['specs']:
+                if spec.get('destroy'):
+                    tr.destroy(spec['conn'])
+                    continue
                 try:
                     msg, rec = tr.apply(spec)
                 except tracker.GdbModeLost as e:
